@@ -806,7 +806,34 @@ class IRGenerator:
         a separate pass because it requires all fields and routes to be defined so that
         recursive chains can be followed accurately.
         """
-        data_types_seen = set()
+        def direct_and_referenced(data_type):
+            """
+            Returns the custom annotations applied directly to the members of
+            data_type (or to data_type itself if it is an alias), and the data
+            types that data_type refers to.
+            """
+            annotations = []
+            referenced = []
+            if is_struct_type(data_type) or is_union_type(data_type):
+                # custom annotations are inherited from ancestor data types
+                if data_type.parent_type:
+                    referenced.append(data_type.parent_type)
+                for field in data_type.fields:
+                    referenced.append(field.data_type)
+                    # annotations can be defined directly on fields
+                    annotations.extend((field, annotation)
+                                       for annotation in field.custom_annotations)
+            elif is_alias(data_type):
+                referenced.append(data_type.data_type)
+                # annotations can be defined directly on aliases
+                annotations.extend((data_type, annotation)
+                                   for annotation in data_type.custom_annotations)
+            elif is_list_type(data_type) or is_nullable_type(data_type):
+                referenced.append(data_type.data_type)
+            elif is_map_type(data_type):
+                # only map values support annotations for now
+                referenced.append(data_type.value_data_type)
+            return annotations, referenced
 
         def recurse(data_type):
             # primitive types do not have annotations
@@ -817,37 +844,24 @@ class IRGenerator:
             if data_type.recursive_custom_annotations is not None:
                 return data_type.recursive_custom_annotations
 
-            # handle cycles safely (annotations will be found first time at top level)
-            if data_type in data_types_seen:
-                return set()
-            data_types_seen.add(data_type)
-
+            # collect the annotations of everything reachable from data_type. Each data
+            # type gets its own traversal: a result that was cut short by a cycle must
+            # not be kept for the data types that are part of the cycle.
             annotations = set()
-
-            if is_struct_type(data_type) or is_union_type(data_type):
-                # collect custom annotations from ancestor data types
-                if data_type.parent_type:
-                    annotations.update(recurse(data_type.parent_type))
-                # collct custom annotations from nested data types
-                for field in data_type.fields:
-                    annotations.update(recurse(field.data_type))
-                    # annotations can be defined directly on fields
-                    annotations.update([(field, annotation)
-                                        for annotation in field.custom_annotations])
-            elif is_alias(data_type):
-                annotations.update(recurse(data_type.data_type))
-                # annotations can be defined directly on aliases
-                annotations.update([(data_type, annotation)
-                                    for annotation in data_type.custom_annotations])
-            elif is_list_type(data_type):
-                annotations.update(recurse(data_type.data_type))
-            elif is_map_type(data_type):
-                # only map values support annotations for now
-                annotations.update(recurse(data_type.value_data_type))
-            elif is_nullable_type(data_type):
-                annotations.update(recurse(data_type.data_type))
+            data_types_seen = set()
+            pending = [data_type]
+            while pending:
+                cur_data_type = pending.pop()
+                if not is_composite_type(cur_data_type) or cur_data_type in data_types_seen:
+                    continue
+                data_types_seen.add(cur_data_type)
+                direct_annotations, referenced = direct_and_referenced(cur_data_type)
+                annotations.update(direct_annotations)
+                pending.extend(referenced)
 
             data_type.recursive_custom_annotations = annotations
+            for referenced_data_type in direct_and_referenced(data_type)[1]:
+                recurse(referenced_data_type)
             return annotations
 
         for namespace in self.api.namespaces.values():
